@@ -160,7 +160,7 @@ func getHostAPI(p *ir.Prog) *hostAPI {
 	h.vs = p.Views("rhp", ir.ExpandOpt{Key: "host-handlers", Stop: func(fn *types.Func) bool { return units[fn] }})
 	h.vsD = p.Views("rhp", ir.ExpandOpt{Key: "host-handlers+defers", Stop: func(fn *types.Func) bool { return units[fn] }, Defers: true})
 	for _, f := range raw {
-		if v := h.vs.Of(f); len(v.CallsTo(false, h.readRequest)) > 0 {
+		if v := h.vs.Of(f); len(v.CallsTo(false, h.readRequest)) > 0 || reqParam(v) != nil {
 			h.handlers = append(h.handlers, v)
 		}
 	}
